@@ -1473,3 +1473,74 @@ Proof.
   - intros s. apply ws_new_client_fresh; try assumption.
     rewrite <- Hc. unfold payloads. rewrite map_map. cbn beta iota. rewrite map_id. reflexivity.
 Qed.
+
+(* ------------------------------------------------------------------ several parsers *)
+Lemma nth_update_same : forall i x l, (i < length l)%nat -> nth i (update i x l) reset = x.
+Proof.
+  induction i as [|i IH]; intros x [|y l] H; simpl in *; try lia; auto.
+  apply IH. lia.
+Qed.
+
+Lemma nth_update_other : forall i j x l, i <> j -> nth i (update j x l) reset = nth i l reset.
+Proof.
+  induction i as [|i IH]; intros [|j] x [|y l] H; simpl; try reflexivity; try congruence.
+  apply IH. congruence.
+Qed.
+
+Lemma length_update : forall i x l, length (update i x l) = length l.
+Proof. induction i as [|i IH]; intros x [|y l]; simpl; auto. Qed.
+
+(* Interleaving irrelevance (product of independent state machines): under ANY
+   interleaving of the operations of any number of parsers, parser i goes through exactly
+   the states and produces exactly the outputs it produces when run alone on its own
+   operations. *)
+Lemma multi_run_independent : forall t ops ss i, (i < length ss)%nat ->
+  nth i (fst (multi_run t ss ops)) reset = fst (solo_run t (nth i ss reset) (ops_of i ops)) /\
+  outs_of i (snd (multi_run t ss ops)) = snd (solo_run t (nth i ss reset) (ops_of i ops)).
+Proof.
+  intros t ops. induction ops as [|o ops IH]; intros ss i Hi.
+  - simpl. auto.
+  - cbn [multi_run ops_of filter].
+    destruct (own_step t (nth (mop_idx o) ss reset) o) as [s1 o1] eqn:Hstep.
+    specialize (IH (update (mop_idx o) s1 ss) i).
+    rewrite length_update in IH. specialize (IH Hi).
+    destruct (multi_run t (update (mop_idx o) s1 ss) ops) as [ss2 o2].
+    unfold outs_of. cbn [fst snd filter map].
+    destruct (Nat.eqb (mop_idx o) i) eqn:He.
+    + apply Nat.eqb_eq in He. rewrite He in *.
+      rewrite nth_update_same in IH by assumption.
+      cbn [solo_run]. rewrite Hstep.
+      fold (ops_of i ops) in *.
+      destruct (solo_run t s1 (ops_of i ops)) as [s3 o3]. simpl in *.
+      destruct IH as [IH1 IH2]. unfold outs_of in IH2. rewrite IH2. auto.
+    + apply Nat.eqb_neq in He.
+      rewrite nth_update_other in IH by congruence.
+      exact IH.
+Qed.
+
+Lemma solo_run_feeds : forall t i chunks s,
+  solo_run t s (map (MFeed i) chunks) = feeds t s chunks.
+Proof.
+  intros t i chunks. induction chunks as [|c chunks IH]; intros s; [reflexivity|].
+  simpl. destruct (feed t s c) as [[s1 o1] st1]. rewrite IH. reflexivity.
+Qed.
+
+(* k parsers, each fed a chunking of its own stream of well-formed packets (possibly
+   after a reset / construction in its slot), interleaved arbitrarily with the operations
+   of the others: each delivers exactly its own packets and ends in its initial state. *)
+Lemma interleaved_streams : forall t ops ss i pkts chunks, wf_table t = true ->
+  (i < length ss)%nat ->
+  ops_of i ops = MReset i :: map (MFeed i) chunks \/
+  (nth i ss reset = reset /\ ops_of i ops = map (MFeed i) chunks) ->
+  forallb (wf_packet t) pkts = true -> concat chunks = concat pkts ->
+  nth i (fst (multi_run t ss ops)) reset = reset /\
+  concat (outs_of i (snd (multi_run t ss ops))) = map Packet pkts.
+Proof.
+  intros t ops ss i pkts chunks Ht Hi Hops Hp Hc.
+  destruct (multi_run_independent t ops ss i Hi) as [H1 H2]. rewrite H1, H2.
+  destruct (chunking_irrelevant t pkts chunks Ht Hp Hc) as [Hs Ho].
+  destruct Hops as [-> | [-> ->]].
+  - cbn [solo_run own_step]. rewrite solo_run_feeds.
+    destruct (feeds t reset chunks) as [s2 o2]. simpl in *. auto.
+  - rewrite solo_run_feeds. destruct (feeds t reset chunks) as [s2 o2]. simpl in *. auto.
+Qed.
